@@ -18,7 +18,7 @@ RULE = ('roundtrip units: random lists of 0..8 (key,value) pairs, keys non-empty
         'all three of its output modes under a step budget, plus random junk incl. lone surrogates-free Unicode. Non-trivial = '
         'the pair list has a repeated key or a character that needs escaping; distinct = distinct encoded string.')
 PYOPT = {'quick': 1, 'thorough': 1}     # one unit of every kind is also served by an interpreter started with -O (assert statements compiled out)
-REQUIRED = ['units_run_under_python_-O', 'params_read_before_query_and_forms', 'attribute_access_compared', 'query_replaced_after_a_first_read', 'body_consumed_before_forms', 'roundtrips_query', 'roundtrips_forms', 'roundtrips_params', 'repeated_key_cases', 'list_values_seen',
+REQUIRED = ['units_run_under_python_-O', 'same_request_repeated', 'params_read_before_query_and_forms', 'attribute_access_compared', 'query_replaced_after_a_first_read', 'body_consumed_before_forms', 'roundtrips_query', 'roundtrips_forms', 'roundtrips_params', 'repeated_key_cases', 'list_values_seen',
             'totality_strings', 'via_wsgi', 'chunked_forms']
 EXHAUSTIVE = {'quick': False, 'thorough': False,
               'quick_note': 'totality sweep is complete for all strings of length<=6 over {a,=,&,%,+,2}',
@@ -132,10 +132,18 @@ def roundtrip_unit(ctx, unit):
         if seen.get('body_first'):
             # the raw body is consumed (fully or partly) before the form is interpreted
             seen['raw'] = rq.body.read(seen['body_first'])
-        seen['query'] = dict(rq.query)
-        seen['forms'] = dict(rq.forms)
-        seen['params'] = dict(rq.params)
+        def snap(d):
+            return {k: (list(v) if isinstance(v, list) else v) for k, v in d.items()}
+        seen['query'] = snap(rq.query)
+        seen['forms'] = snap(rq.forms)
+        seen['params'] = snap(rq.params)
         seen['order'] = (list(rq.query), list(rq.forms))
+        # the handler may do with its values what it likes: edit the lists of repeated keys in place
+        for src in (rq.query, rq.forms):
+            for v in src.values():
+                if isinstance(v, list):
+                    v.reverse()
+                    v.append('edited-by-the-handler')
         return 'ok'
 
     for i in range(unit['n']):
@@ -224,13 +232,22 @@ def one_roundtrip(ctx, app, seen, rng, pairs, exp, enc, mode, wit):
             env = make_environ('POST', '/q', body=enc.encode('ascii'), content_type='application/x-www-form-urlencoded')
         else:
             env = make_environ('GET', '/q', qs=enc)
-        r = call_app(app, env)
-        ctx.count('via_wsgi')
-        if r.code != 200 or 'params' not in seen:
-            ctx.violation('wsgi:request-failed', f'status {r.status} for {enc!r}: {r.errors[-300:]}', wit)
-            return
-        _cmp(ctx, 'Request.forms' if use_form else 'Request.query', seen['forms'] if use_form else seen['query'], exp, wit)
-        _cmp(ctx, 'Request.params', seen['params'], exp, wit)
+        # the same bytes three times in a row: what one request's handler did with its values is not the next request's business
+        for rep in range(3):
+            if rep:
+                seen.pop('params', None)
+                env = make_environ('POST', '/q', body=enc.encode('ascii'), content_type='application/x-www-form-urlencoded') if use_form else make_environ('GET', '/q', qs=enc)
+                ctx.count('same_request_repeated')
+            r = call_app(app, env)
+            ctx.count('via_wsgi')
+            if r.code != 200 or 'params' not in seen:
+                ctx.violation('wsgi:request-failed', f'status {r.status} for {enc!r}: {r.errors[-300:]}', wit)
+                return
+            tag = '' if not rep else f'(request {rep + 1} with the same bytes)'
+            if not _cmp(ctx, ('Request.forms' if use_form else 'Request.query') + tag, seen['forms'] if use_form else seen['query'], exp, wit):
+                return
+            if not _cmp(ctx, 'Request.params' + tag, seen['params'], exp, wit):
+                return
         ctx.count('roundtrips_forms' if use_form else 'roundtrips_query')
         ctx.count('roundtrips_params')
 
